@@ -296,8 +296,23 @@ func (rw *rewriter) post(c *astutil.Cursor) bool {
 	return true
 }
 
+// goSite labels a go statement with file:line(enclosing function), so that
+// goroutine classes can be recognised independently of line shifts.
+func (rw *rewriter) goSite(n ast.Node) *ast.BasicLit {
+	lit := rw.site(n)
+	name := ""
+	for _, d := range rw.file.Decls {
+		if fd, ok := d.(*ast.FuncDecl); ok && fd.Pos() <= n.Pos() && n.End() <= fd.End() {
+			name = fd.Name.Name
+		}
+	}
+	s, _ := strconv.Unquote(lit.Value)
+	lit.Value = strconv.Quote(s + "(" + name + ")")
+	return lit
+}
+
 func (rw *rewriter) goStmt(n *ast.GoStmt) ast.Stmt {
-	site := rw.site(n)
+	site := rw.goSite(n)
 	ce := n.Call
 	if fl, ok := unparen(ce.Fun).(*ast.FuncLit); ok && len(ce.Args) == 0 {
 		return &ast.ExprStmt{X: call(sel("Go"), site, fl)}
